@@ -40,6 +40,8 @@ type Server struct {
 	tokens  map[string]token.Token
 	auth    authmodel.Authenticator
 	realIP  func(http.Handler) http.Handler
+	// closed when the background health check has returned
+	healthDone chan struct{}
 }
 
 func (s *Server) Handler() http.Handler {
@@ -64,6 +66,10 @@ func (s *Server) Close() error {
 	if s.closeCh != nil {
 		close(s.closeCh)
 		s.closeCh = nil
+	}
+	if s.healthDone != nil {
+		// tokens must not be pinged once they are closed
+		<-s.healthDone
 	}
 	for _, t := range s.tokens {
 		t.Close()
